@@ -133,6 +133,8 @@ func newPkg(pkg *packages.Package, u *Universe) Package {
 				}
 
 				if named != nil {
+					// receiver of generic type is instantiated, group by the declared one
+					named = named.Origin()
 					p.methods[named] = append(p.methods[named], x)
 				}
 			} else if x.Parent() == pkgScope {
@@ -326,7 +328,7 @@ func (p *pkgInfo) Functions() map[string]*types.Func {
 }
 
 func (p *pkgInfo) MethodsOf(n *types.Named, ptr bool) []*types.Func {
-	funcs, _ := p.methods[n]
+	funcs, _ := p.methods[n.Origin()]
 
 	if ptr {
 		return funcs
